@@ -67,6 +67,32 @@ def count_check(ctx, tag, what, stated, counted):
                       "%s: header states %s = %s but the artifact contains %s" % (tag, what, stated, counted))
 
 
+def comment_sections(text):
+    """'// <Unsupported|Notable> <what>: N' comment sections of a generated header -> [(title, stated, listed entries)].
+    An entry is a comment line '// name (reasons)' / '// name {reasons}' between the section header and the next header or code."""
+    out = []
+    lines = text.splitlines()
+    i = 0
+    while i < len(lines):
+        m = re.match(r"^// ((?:Unsupported|Notable) [a-z ]+): (\d+)\s*$", lines[i])
+        if not m:
+            i += 1
+            continue
+        title, n = m.group(1), int(m.group(2))
+        j = i + 1
+        entries = 0
+        while j < len(lines):
+            l = lines[j]
+            if re.match(r"^// (?:Unsupported|Notable|Supported) [a-z ]+: \d+", l) or (l.strip() and not l.startswith("//")):
+                break
+            if re.match(r"^// \S+ [({]", l):
+                entries += 1
+            j += 1
+        out.append((title, n, entries))
+        i = j
+    return out
+
+
 def stated(text, pattern):
     m = re.search(pattern, text, re.M)
     return int(m.group(1)) if m else None
@@ -93,6 +119,8 @@ def run(ctx):
                  "Zone\tTest/Seconds\t5:17:20\t-\tLMT\t1950\n\t\t\t5:17:20\tPX\tT%sT\t1985\tMar\t1\t2:00:30\n\t\t\t5:00\tPX\tT%sT\n"
                  "Rule\tPY\t1960\tmax\t-\tApr\tSun>=1\t2:00\t1:00\tD\nRule\tPY\t1960\tmax\t-\tOct\tlastSun\t2:00\t0\tS\n"
                  "Zone\tTest/Odd\t2:07:00\t-\tLMT\t1950\n\t\t\t2:07\tPY\tSAST\n"
+                 "Rule\tPZ\t1960\tmax\t-\tApr\tSun>=1\t2:00\t1:00\tD\nRule\tPZ\t1960\tmax\t-\tApr\tSun>=22\t2:00\t0\tS\n"
+                 "Zone\tTest/NotedAndRemoved\t5:07:00\t-\tLMT\t1950\n\t\t\t5:07\tPZ\tZ%sT\n"
                  "Link\tAfrica/Monrovia\tTest/Alias\n", 1965, 2000))
     jobs = []
     for label, src, sy, uy in srcs:
@@ -193,6 +221,10 @@ def run(ctx):
                     count_check(ctx, tag, "zone_policies.cpp Rules", stated(pc, r"^// Rules: (\d+)"), len(re.findall(r"/\*fromYearTiny\*/", pc)))
                     count_check(ctx, tag, "zone_policies.h Supported zone policies", stated(ph, r"^// Supported zone policies: (\d+)"),
                                 len(re.findall(r"^extern const \w+::ZonePolicy kPolicy\w+;", ph, re.M)))
+                    for fn_, txt_ in (("zone_infos.h", ih), ("zone_policies.h", ph)):
+                        for title, n_, listed in comment_sections(txt_):
+                            count_check(ctx, tag, "%s %s" % (fn_, title), n_, listed)
+                            nt.add((label, scope, "R4", fn_, title))
                     count_check(ctx, tag, "kZoneRegistrySize", stated(rh, r"kZoneRegistrySize = (\d+)"), len(re.findall(r"^\s*&kZone\w+,", rc_, re.M)))
                     count_check(ctx, tag, "registry vs zones", len(re.findall(r"^\s*&kZone\w+,", rc_, re.M)), len(emitted))
                     nt.add((label, scope, "R4"))
